@@ -19,7 +19,10 @@ PanicsFor(S, name, o) ==
   \/ (HasRts(S, name) /\ o.bmv /\ ~HostShareable(S, name))
   \/ (HasRts(S, name) /\ o.bmh /\ HostShareable(S, name))
   \/ RtsNotLast(S, name)
-DocumentedPanic(S, o) == \E n \in Emit(S) : PanicsFor(S, n, o)
+(* bindgroup.rs has no arm for a binding whose own type is an atomic (`var<storage, read_write> n: atomic<u32>`): it panics *)
+(* ("Unsupported type"); found by the conformance engine, recorded in DESIGN 8 - no listed property covers it              *)
+UnsupportedBinding(S) == \E r \in Range(Resources(S)) : r.ty.k = "atomic"
+DocumentedPanic(S, o) == UnsupportedBinding(S) \/ \E n \in Emit(S) : PanicsFor(S, n, o)
 
 Derives(S, name, o) ==
   {"Debug", "Clone", "PartialEq"}
